@@ -13,9 +13,9 @@ package key
 //@   params k, writer
 //@   results n, err
 //@   requires k != nil && writer != nil
-//@   ensures [C12.v1.len]  err == nil ==> n == 1 + len(k.key) && writer.slen == old(writer.slen) + n
+//@   ensures [C12.v1.len+C01+C07+C09]  err == nil ==> n == 1 + len(k.key) && writer.slen == old(writer.slen) + n
 //@   ensures [C12.v1.type] err == nil ==> writer.sdata[old(writer.slen)] == k.keyType
-//@   ensures [C12.v1.body] err == nil ==> forall j int :: old(writer.slen) + 1 <= j && j < writer.slen ==> writer.sdata[j] == old(k.key[j - old(writer.slen) - 1])
+//@   ensures [C12.v1.body+C01+C07+C09] err == nil ==> forall j int :: old(writer.slen) + 1 <= j && j < writer.slen ==> writer.sdata[j] == old(k.key[j - old(writer.slen) - 1])
 //@   ensures [C12.v1.keep] forall i int :: 0 <= i && i < old(writer.slen) ==> writer.sdata[i] == old(writer.sdata[i])
 //@   modifies writer.sdata, writer.slen, writer.nmsg, writer.msg
 
@@ -25,7 +25,7 @@ package key
 //@   results n, err
 //@   requires e.w != nil && key != nil
 //@   ensures [C12.enc.ok]   old(key.version) == 0 || old(key.version) == 1 ==> (err == nil ==> n == 5 + len(key.Key) && e.w.slen == old(e.w.slen) + n)
-//@   ensures [C12.enc.form] err == nil ==> encodedAt(e.w.sdata, old(e.w.slen), key.KeyType, key.Key) && n == 5 + len(key.Key) && e.w.slen == old(e.w.slen) + n
+//@   ensures [C12.enc.form+C01+C09] err == nil ==> encodedAt(e.w.sdata, old(e.w.slen), key.KeyType, key.Key) && n == 5 + len(key.Key) && e.w.slen == old(e.w.slen) + n
 //@   ensures [C12.enc.keep] forall i int :: 0 <= i && i < old(e.w.slen) ==> e.w.sdata[i] == old(e.w.sdata[i])
 //@   ensures [C12.enc.ver]  err == nil ==> key.version == 1
 //@   modifies key.version, e.w.sdata, e.w.slen, e.w.nmsg, e.w.msg
